@@ -613,6 +613,12 @@ def subscript(I, run, base: Value, idx, node) -> Value:
                 I.raise_builtin(run, type(e).__name__, node, idx)
         return App("index", (base, idx))
     k = run.kind_of(base)
+    if k in ("strlist", "byteslist") and isinstance(idx, C) and isinstance(idx.v, int) and not isinstance(idx.v, bool) and idx.v >= 0:
+        # element of a peer-shaped list (result of split): in range only if the list is long enough
+        ln = App("len", (base,), "int")
+        if not decide_cmp(I, run, ">", ln, C(idx.v), node):
+            I.raise_builtin(run, "IndexError", node, idx)
+        return App("index", (base, idx), "str" if k == "strlist" else "bytes")
     if k == "bytes" and isinstance(idx, C) and idx.v in (0, 1) and not isinstance(idx.v, bool):
         # the first two bytes of an opaque byte string are modelled as the two halves of its
         # big-endian 16-bit prefix, so that 256*b[0]+b[1] (any spelling) folds back to one term
@@ -1035,7 +1041,15 @@ def str_method(I, run, recv, name, args, kwargs, node) -> Value:
         return App("join", (recv, args[0]), k)
     kind = _method_kind(name, k if k in ("str", "bytes") else "str")
     res = App("m:" + name, (recv,) + tuple(args), kind)
+    if name in ("split", "rsplit"):
+        ln = run.fact(App("len", (res,), "int"))
+        ln.lo = max(ln.lo, 1)
+        if len(args) >= 2 and isinstance(args[1], C) and isinstance(args[1].v, int) and args[1].v >= 0:
+            ln.hi = min(ln.hi, args[1].v + 1)
+        if k == "bytes":
+            run.kinds[res.key()] = "byteslist"
     if name in ("decode",) and I.cfg.may_raise is not None:
+        run.cur_recv = recv
         excs = I.cfg.may_raise(f"<{k}>.decode", node, run) or []
         if excs:
             ch = run.choose(len(excs) + 1, I.locof(node), "decode raises")
@@ -1161,6 +1175,7 @@ def _b_int(I, run, args, kwargs, node):
         return C(EXT_CONST[v.name])
     r = App("int", (v,), "int")
     if I.cfg.may_raise is not None and run.kind_of(v) in ("str", "bytes", None):
+        run.cur_arg = v
         excs = I.cfg.may_raise("builtins.int", node, run) or []
         if excs and run.choose(2, I.locof(node), f"int({v!r}) raises") == 1:
             raise RaiseSig(run.alloc(HObj(excs[0], {"args": Tup(())})), node)
